@@ -188,7 +188,6 @@ package ipa
 
 //@ func MultiScalar
 //@ props C02
-//@ assumed multi-scalar multiplication (bandersnatch.MultiExp behind banderwagon.Element.MultiExp: bucket method with goroutines and channels) returns sum_k scalars[k]*points[k] and fails exactly on a length mismatch; C09 is not discharged by this framework
 //@ prelude field group bytes bytesint bytesbridge curve frint bary ipa ipaspec
 //@ requires validVec(points)
 //@ ensures err != nil <==> len(points) != len(scalars)
